@@ -3,8 +3,9 @@
 From Coq Require Import ZArith List Bool.
 Import ListNotations.
 
-(* outcome codes on the wire: 0 = finished normally, 1 = raised (exception id e), 2 = pool broken *)
-Inductive outcome := Done | Raised (e : Z) | Broken.
+(* outcome codes on the wire: 0 = finished normally, 1 = raised an Exception (id e), 2 = pool broken,
+   3 = raised SystemExit / KeyboardInterrupt *)
+Inductive outcome := Done | Raised (e : Z) | Broken | Exited.
 Inductive result := ROk | RReraise (e : Z) | RRuntime.
 
 Fixpoint wait_on_futures (completed : list outcome) : result :=
@@ -13,6 +14,7 @@ Fixpoint wait_on_futures (completed : list outcome) : result :=
   | Done :: tl => wait_on_futures tl
   | Raised e :: _ => RReraise e
   | Broken :: _ => RRuntime
+  | Exited :: _ => RRuntime
   end.
 Definition pwm_exit (body_exc : option Z) (completed : list outcome) : result :=
   match body_exc with None => wait_on_futures completed | Some e => RReraise e end.
